@@ -93,3 +93,64 @@ pub fn stub_from_index(index: &str) -> u32 {
     let k = (b[1] - b'0') as usize;
     unsafe { V[k] }
 }
+
+// ---------------------------------------------------------------- long streams (bit-set parser only)
+// `BC64::from_index` folds EVERY token in and creates exactly one iterator, so a long stream needs neither
+// distinct token texts nor per-iterator positions: token k is the k-th call of `next`, and the token parser
+// call that follows it returns LV[k].
+pub const LMAX: usize = 64;
+pub static mut LN: usize = 0;
+pub static mut LPOS: usize = 0;
+pub static mut LV: [u32; LMAX] = [0; LMAX];
+
+#[cfg(kani)]
+pub fn install_long(n: usize, v: [u32; LMAX]) -> &'static str {
+    unsafe {
+        LN = n;
+        LV = v;
+        LPOS = 0;
+    }
+    "(long token stream is abstract)"
+}
+
+#[cfg(not(kani))]
+pub fn install_long(n: usize, v: [u32; LMAX]) -> &'static str {
+    let mut s = String::new();
+    for k in 0..n {
+        if k > 0 {
+            s.push([' ', '\t', '\n', '\u{a0}'][k % 4]);
+        }
+        let w = v[k];
+        if w == 0 {
+            s.push_str("XX");
+        } else {
+            s.push(w.get_rank_char());
+            s.push(if k % 2 == 0 { w.get_suit_char() } else { w.get_suit_letter() });
+        }
+    }
+    Box::leak(s.into_boxed_str())
+}
+
+#[cfg(kani)]
+pub fn stub_next_long<'a>(_it: &mut core::str::SplitWhitespace<'a>) -> Option<&'a str>
+where
+    'a: 'a,
+{
+    unsafe {
+        if LPOS < LN {
+            LPOS += 1;
+            Some("#")
+        } else {
+            None
+        }
+    }
+}
+
+/// the token handed out last -> its symbolic word
+#[cfg(kani)]
+pub fn stub_from_index_long(_index: &str) -> u32 {
+    unsafe {
+        kani::assert(LPOS >= 1 && LPOS <= LMAX, "S6-long: token parser called without a token");
+        LV[(LPOS - 1) % LMAX]
+    }
+}
